@@ -1543,6 +1543,137 @@ def rule_definite_assignment(eng, rep, rule="C07-11.locals-are-assigned-before-u
     rep.require_count(rule, "reads of locals analysed", nuse, 1500)
 
 
+# --------------------------------------------------------------------------------------------- C07-14
+def rule_no_python_division_by_a_vanishing_root(eng, rep, rule="C07-14.no-python-float-division-by-a-root-or-modulus-that-can-vanish"):
+    """NumPy divisions by zero give inf/nan and a warning; a division of *Python* numbers raises ZeroDivisionError, which solve does not catch.  The package takes Python
+    floats from math.sqrt / float() / abs(): a square root or modulus of data is zero for degenerate data (all interpolation points coincide after rounding), so a
+    Python-typed division by one must be protected -- by a test of the denominator on every path from its definition to the division, or by a floor (max(., positive)).
+    Decided for every function reachable from solve: typing (definitely-Python operands), zero-ness ({positive, can-vanish}) and a path query that does not follow
+    the branches of tests that exclude zero."""
+    from .common import expand_locals
+    reach = eng.reachable_from_solve()
+    POSITIVE_DATA = ("nsamples",)         # sample counts are >= 1 wherever a point is stored (C17-3)
+    ndiv = nflag = 0
+    for fid in sorted(reach):
+        fi = eng.prog.functions[fid]
+        if fi.is_lambda:
+            continue
+        mi = eng.prog.modules[fi.module]
+        pymath = set(n for n, lib in mi.lib_aliases.items() if lib.startswith("math."))
+        cfg = None
+
+        def is_py(e, at, depth=3):
+            """definitely a Python number (not a NumPy scalar / array)"""
+            if isinstance(e, ast.Constant):
+                return isinstance(e.value, (int, float)) and not isinstance(e.value, bool)
+            if isinstance(e, ast.UnaryOp) and isinstance(e.op, (ast.USub, ast.UAdd)):
+                return is_py(e.operand, at, depth)
+            if isinstance(e, ast.BinOp) and isinstance(e.op, (ast.Add, ast.Sub, ast.Mult, ast.Div, ast.Pow)):
+                return is_py(e.left, at, depth) and is_py(e.right, at, depth)
+            if isinstance(e, ast.Call):
+                f = e.func
+                if isinstance(f, ast.Name) and (f.id in pymath or f.id in ("float", "int", "len")):
+                    return True
+                if isinstance(f, ast.Attribute) and isinstance(f.value, ast.Name) and mi.lib_aliases.get(f.value.id) == "math":
+                    return True
+                if isinstance(f, ast.Name) and f.id in ("abs", "max", "min") and e.args:
+                    return all(is_py(a, at, depth) for a in e.args)
+                return False
+            if isinstance(e, ast.Name) and depth > 0:
+                try:
+                    defs = cfg.defs_reaching(at, e.id)
+                except Exception:
+                    return False
+                vals = []
+                for dn in defs:
+                    ds = cfg.ast_of(dn)
+                    if isinstance(ds, ast.Assign) and len(ds.targets) == 1 and isinstance(ds.targets[0], ast.Name) and ds.targets[0].id == e.id:
+                        vals.append(is_py(ds.value, ds, depth - 1))
+                    else:
+                        vals.append(False)
+                return bool(vals) and all(vals)
+            return False
+
+        def can_vanish(v):
+            """the value expression of a definition: a root / modulus of data that is not floored"""
+            if isinstance(v, ast.Call):
+                name = ekey(v.func).split(".")[-1]
+                if name in ("sqrt", "abs", "fabs") and v.args:
+                    a = v.args[0]
+                    if isinstance(a, ast.Constant):
+                        return False
+                    if any(p in mentions(a) for p in POSITIVE_DATA):
+                        return False
+                    return True
+                if name in ("max",):
+                    return False if any(isinstance(a, ast.Constant) and isinstance(a.value, (int, float)) and a.value > 0 for a in v.args) else all(can_vanish(a) for a in v.args)
+                if name in ("float",) and v.args:
+                    return can_vanish(v.args[0])
+            return False
+
+        for node in eng.prog.own_nodes(fi):
+            if not (isinstance(node, ast.BinOp) and isinstance(node.op, (ast.Div, ast.FloorDiv, ast.Mod))):
+                continue
+            if isinstance(node.left, ast.Constant) and isinstance(node.left.value, str):
+                continue
+            if cfg is None:
+                cfg = eng.cfg(fi)
+            try:
+                at = cfg.ast_of(cfg.cfg_node(node))
+            except Exception:
+                continue
+            den = node.right
+            if not (is_py(node.left, at) and is_py(den, at)):
+                continue
+            ndiv += 1
+            site = eng.where(fi, at if isinstance(at, ast.stmt) else node)
+            # definitions of the denominator that can vanish
+            bad_def = None
+            if isinstance(den, ast.Name):
+                here = cfg.cfg_node(node)
+                for dn in cfg.defs_reaching(at, den.id):
+                    ds = cfg.ast_of(dn)
+                    if not (isinstance(ds, ast.Assign) and can_vanish(ds.value)):
+                        continue
+                    redefs = [k for k in cfg.g.nodes if k != dn and den.id in cfg.defs_of(k)[0]]
+
+                    def edge_ok(a, b, e, name=den.id):
+                        if cfg.kind(a) != "cond" or e.get("label") not in (True, False):
+                            return True
+                        atm = atom_of(cfg.ast_of(a), e["label"])
+                        if atm.rhs is None or not (isinstance(atm.lhs, ast.Name) and atm.lhs.id == name or isinstance(atm.rhs, ast.Name) and atm.rhs.id == name):
+                            return True
+                        other = atm.rhs if (isinstance(atm.lhs, ast.Name) and atm.lhs.id == name) else atm.lhs
+                        c = const_value(other)
+                        if c is None:
+                            return True
+                        name_left = isinstance(atm.lhs, ast.Name) and atm.lhs.id == name
+                        # is `name == 0` consistent with the atom?
+                        z = 0.0
+                        if atm.op == "eq":
+                            return z == c
+                        if atm.op == "ne":
+                            return z != c
+                        if atm.op == "lt":
+                            return (z < c) if name_left else (c < z)
+                        if atm.op == "le":
+                            return (z <= c) if name_left else (c <= z)
+                        return True
+                    if cfg.path_avoiding(dn, here, redefs, edge_ok=edge_ok) is not None:
+                        bad_def = ds
+                        break
+            elif can_vanish(den):
+                bad_def = den
+            if bad_def is not None:
+                nflag += 1
+                rep.bad(rule, site, "%s|python-division-by-vanishing-root|%s" % (fid, short(den, 25)),
+                        "`%s` divides Python numbers by `%s` = `%s`, which is 0.0 for degenerate data (e.g. all interpolation points coincide after rounding): ZeroDivisionError escapes from solve"
+                        % (short(node, 50), short(den, 25), short(bad_def, 60)))
+            else:
+                rep.ok(rule, site, "Python-typed division `%s`: the denominator cannot be a vanishing root / modulus here" % short(node, 50), nontrivial=False)
+    rep.require_count(rule, "divisions with Python-typed operands reachable from solve", ndiv, 5)
+
+
 def run(eng, rep):
     rep.explain("C07: call conformance of every resolved internal call (T10); shape of the graceful input-error path in solve (T2); "
                 "guard present for each documented invalid-argument class (frozen table, matched on normalised conditions); "
@@ -1567,5 +1698,6 @@ def run(eng, rep):
     rep.guarded(rule_gap_row_in_the_coordinates_of_rhobeg, eng, rep)
     rep.guarded(rule_internal_param_updates, eng, rep)
     rep.guarded(rule_definite_assignment, eng, rep)
+    rep.guarded(rule_no_python_division_by_a_vanishing_root, eng, rep)
     from . import c20
     c20.rule_str_never_formats_none(eng, rep, rule="C07-8.printing")
